@@ -492,9 +492,34 @@ def rule_r4(rep, idxs):
                         continue
                     seen.add((key, pos(d)))
                     ok = key in ALLOWED_WRITERS
-                    rep.add('R4', 'open-in:' + key, ok, pos(d) + ' ' + f.qname,
-                            ALLOWED_WRITERS.get(key, 'an output stream is opened outside the designated writer functions'),
-                            nontrivial=False)
+                    if ok:
+                        rep.add('R4', 'open-in:' + key, ok, pos(d) + ' ' + f.qname, ALLOWED_WRITERS.get(key), nontrivial=False)
+                        continue
+                    # an output file opened somewhere else: what matters is that nothing can reject the input afterwards
+                    parents = {}
+                    for a_ in walk(f.body):
+                        for b_ in children(a_):
+                            parents[id(b_)] = a_
+                    late = []
+                    x = d
+                    while id(x) in parents:
+                        p_ = parents[id(x)]
+                        if p_['kind'] == 'CompoundStmt':
+                            sibs = children(p_)
+                            i_ = next((j for j, s_ in enumerate(sibs) if s_ is x), None)
+                            if i_ is not None:
+                                late += sibs[i_ + 1:]
+                        x = p_
+                    try:
+                        reach = reachable_throws(idx, late)
+                    except AnalysisBroken as e:
+                        rep.undecided('R4', 'open-in:' + key, 'an output stream is opened in %s and what can throw afterwards could not be determined: %s' % (key, e), pos(d) + ' ' + f.qname)
+                        continue
+                    bad = {q: p2 for q, p2 in reach.items() if q not in ACCEPTED_LATE_THROWS}
+                    rep.add('R4', 'open-in:' + key, not bad, pos(d) + ' ' + f.qname,
+                            ('an output stream is opened in %s and the input can still be rejected afterwards (%s): a diagnostic then leaves an '
+                             'empty or truncated output file behind' % (key, ', '.join('%s at %s' % kv for kv in sorted(bad.items())[:4]))) if bad else
+                            'an output stream is opened in %s; no repository error can be raised after that point' % key, nontrivial=False)
     # late throws
     idx = idxs['xcmp.cpp']
     emit = idx.func('hexasm::CodeGen::emitBin')
